@@ -133,6 +133,7 @@ def r172(ctx, api):
 
 
 def r173(ctx, api):
+    r175(ctx)
     from . import c14, meta_rules, c01
     c01.r11(ctx)
     c14.r144(ctx, api, ctx.repo['writer'])
@@ -156,3 +157,46 @@ def r173(ctx, api):
     ck = [c for c in ast.walk(tp) if isinstance(c, ast.Call) and callee(c) == 'check_column_names']
     ctx.ob('R17.3', 'api.to_pandas:requested-columns-validated-against-reported-columns',
            len(ck) == 1 and norm(ck[0].args[0]) == 'self.columns + list(self.cats)', norm(ck[0]) if ck else '', api.loc(tp))
+
+
+def _poly(e):
+    """integer polynomial over opaque atoms: {sorted tuple of atom texts: coefficient}"""
+    if isinstance(e, ast.Constant) and isinstance(e.value, int) and not isinstance(e.value, bool):
+        return {(): e.value} if e.value else {}
+    if isinstance(e, ast.BinOp) and isinstance(e.op, (ast.Add, ast.Sub)):
+        a, b = _poly(e.left), _poly(e.right)
+        out = dict(a)
+        for k, v in b.items():
+            out[k] = out.get(k, 0) + (v if isinstance(e.op, ast.Add) else -v)
+        return {k: v for k, v in out.items() if v}
+    if isinstance(e, ast.BinOp) and isinstance(e.op, ast.Mult):
+        a, b = _poly(e.left), _poly(e.right)
+        out = {}
+        for k1, v1 in a.items():
+            for k2, v2 in b.items():
+                k = tuple(sorted(k1 + k2))
+                out[k] = out.get(k, 0) + v1 * v2
+        return {k: v for k, v in out.items() if v}
+    if isinstance(e, ast.UnaryOp) and isinstance(e.op, ast.USub):
+        return {k: -v for k, v in _poly(e.operand).items()}
+    return {(norm(e),): 1}
+
+
+def r175(ctx, rule='R17.5'):
+    """the automatic range index regenerated from the metadata has exactly as many labels as rows are read, for
+    steps of either sign: RangeIndex(start, stop, step) with stop - start == size * step"""
+    api = ctx.repo['api']
+    f = api.func('ParquetFile.pre_allocate')
+    calls = [c for c in ast.walk(f) if isinstance(c, ast.Call) and (callee(c) or '').split('.')[-1] == 'RangeIndex']
+    ctx.ob(rule, 'api.pre_allocate:range-index-regenerated', len(calls) == 1, '%d RangeIndex constructions' % len(calls), api.loc(f))
+    for c in calls:
+        start, stop, step = kwarg(c, 'start', 0), kwarg(c, 'stop', 1), kwarg(c, 'step', 2)
+        if None in (start, stop, step):
+            ctx.ob(rule, 'api.pre_allocate:range-index-has-size-labels-for-any-step', False, norm(c), api.loc(c))
+            continue
+        diff = _poly(ast.BinOp(left=stop, op=ast.Sub(), right=start))
+        want = _poly(ast.BinOp(left=ast.Name(id='size', ctx=ast.Load()), op=ast.Mult(), right=step))
+        ctx.ob(rule, 'api.pre_allocate:range-index-has-size-labels-for-any-step', diff == want,
+               'stop - start = %s, size*step = %s: a range has ceil((stop-start)/step) labels, which is `size` for every '
+               'non-zero step only when they are equal (an extra +1 loses a label for step -1; a missing `* step` '
+               'mislabels every stepped range)' % (diff, want), api.loc(c))
